@@ -251,3 +251,81 @@ Proof. vm_compute. split; reflexivity. Qed.
 Example C17_peeling_no_edges_keyerror_old_behaviour :
   decompose true [] (adj_of []) (adj_of []) [0]%N (flow_of []) = PeelKeyError.
 Proof. vm_compute. reflexivity. Qed.
+
+(* compute_max_edge_antichain after the external minimum flow (MinFlowCut.v).  The code searches from the source in the residual
+   graph of "lowering the flow" -- forward along an edge only if its flow exceeds its lower bound w, backward along every edge --
+   and returns the edges of weight >= 1 that leave the reached set R.  For ANY feasible flow f (f >= w >= 0, conservation at the inner
+   nodes) such that the sink is not in R (no flow-lowering path: what optimality of the minimum flow means): R is closed under
+   predecessors, so no edge enters it; every edge leaving it carries exactly w; these edges are pairwise not on a common path; their
+   weights add up to the value of f.  Weak duality (cut argument on the ancestors of an antichain): every feasible flow is at least as
+   large as the weight of every antichain.  Hence the extracted set is a MAXIMUM weight antichain and f a MINIMUM flow, and the
+   assertion "weight of the antichain == minimum flow" in the code cannot fire on a flow with that property.  The residual search and
+   the extraction are executable (MinFlowCut.mincut_model), tied to the code by the E3 stream E3_residual_antichain on the flow
+   the implementation obtained, and the premises -- including "the sink is not residual-reachable" for the external solver's flow --
+   are evaluated per instance by the extracted MinFlowCut.mincut_premises. *)
+From Coq Require Import QArith.
+Local Close Scope Q_scope.
+From FP Require Lin Dilworth MinFlowCut.
+Theorem C17_flow_value_crosses_every_predecessor_closed_cut :
+  forall (E : list edge) (s t : node), (forall e, In e E -> snd e <> s) ->
+  forall (g : edge -> Q) (R : list node),
+  (forall v, v <> s -> v <> t -> (MinFlowCut.infl E g v == MinFlowCut.outfl E g v)%Q) ->
+  NoDup R -> MinFlowCut.pred_closed E R -> In s R -> ~ In t R ->
+  (MinFlowCut.value E s g == Lin.sumq g (MinFlowCut.cut E R))%Q.
+Proof. exact MinFlowCut.cut_value. Qed.
+Print Assumptions C17_flow_value_crosses_every_predecessor_closed_cut.
+
+Theorem C17_every_flow_is_at_least_every_antichain :
+  forall (E : list edge) (s t : node) (w : edge -> Q),
+  (forall e, In e E -> snd e <> s) -> (forall e, In e E -> fst e <> t) -> (forall e, In e E -> Dilworth.conn E s (fst e)) ->
+  (forall e, In e E -> (0 <= w e)%Q) ->
+  forall (f : edge -> Q) (A : list edge),
+  MinFlowCut.feasible E s t w f -> MinFlowCut.antichain_of E A -> (Lin.sumq w A <= MinFlowCut.value E s f)%Q.
+Proof. exact MinFlowCut.flow_at_least_antichain. Qed.
+Print Assumptions C17_every_flow_is_at_least_every_antichain.
+
+Theorem C17_residual_cut_is_a_maximum_antichain :
+  forall (E : list edge) (s t : node) (w : edge -> Q),
+  (forall e, In e E -> snd e <> s) -> (forall e, In e E -> fst e <> t) -> (forall e, In e E -> Dilworth.conn E s (fst e)) ->
+  (forall e, In e E -> (0 <= w e)%Q) ->
+  forall (f : edge -> Q) (R : list node),
+  NoDup E -> MinFlowCut.feasible E s t w f -> NoDup R -> In s R -> ~ In t R -> MinFlowCut.pred_closed E R ->
+  (forall u v, In (u, v) E -> In u R -> (w (u, v) < f (u, v))%Q -> In v R) ->
+  MinFlowCut.antichain_of E (MinFlowCut.cut E R) /\
+  (MinFlowCut.value E s f == Lin.sumq w (MinFlowCut.cut E R))%Q /\
+  (forall f', MinFlowCut.feasible E s t w f' -> (MinFlowCut.value E s f <= MinFlowCut.value E s f')%Q) /\
+  (forall A, MinFlowCut.antichain_of E A -> (Lin.sumq w A <= Lin.sumq w (MinFlowCut.cut E R))%Q).
+Proof. exact MinFlowCut.residual_cut_is_optimal. Qed.
+Print Assumptions C17_residual_cut_is_a_maximum_antichain.
+
+Theorem C17_residual_search_reaches_a_closed_set :
+  forall (V : list node) (E : list edge) (w f : edge -> Q) (s : node),
+  NoDup V -> (forall e, In e E -> In (fst e) V /\ In (snd e) V) -> In s V ->
+  let R := MinFlowCut.reached V E w f s in
+  NoDup R /\ In s R /\ MinFlowCut.pred_closed E R /\
+  (forall u v, In (u, v) E -> In u R -> (w (u, v) < f (u, v))%Q -> In v R).
+Proof. exact MinFlowCut.reached_spec. Qed.
+Print Assumptions C17_residual_search_reaches_a_closed_set.
+
+Theorem C17_residual_cut_is_a_maximum_antichain_checked :
+  forall (V : list node) (E : list edge) (s t : node) (wl fl : list (edge * Q)),
+  MinFlowCut.mincut_premises V E s t wl fl = true ->
+  let w := MinFlowCut.qof wl in let f := MinFlowCut.qof fl in let A := snd (MinFlowCut.mincut_model V E s wl fl) in
+  MinFlowCut.antichain_of E A /\ (Lin.sumq w A == MinFlowCut.value E s f)%Q /\
+  (forall f', MinFlowCut.feasible E s t w f' -> (MinFlowCut.value E s f <= MinFlowCut.value E s f')%Q) /\
+  (forall A2, MinFlowCut.antichain_of E A2 -> (Lin.sumq w A2 <= Lin.sumq w A)%Q).
+Proof. exact MinFlowCut.mincut_checked. Qed.
+Print Assumptions C17_residual_cut_is_a_maximum_antichain_checked.
+
+(* non-vacuity on the diamond 1 -> {2,3} -> 4 with source edge 0 -> 1 and sink edge 4 -> 5: weight 1 on the four inner edges, flow 2
+   through the source and sink edge and 1 on the inner edges: the premises hold, the search reaches {0, 1} and returns the two edges
+   leaving node 1 *)
+Example C17_residual_cut_premises_satisfiable :
+  MinFlowCut.mincut_premises MinFlowCut.dmV MinFlowCut.dmE 0%N 5%N MinFlowCut.dmW MinFlowCut.dmF = true.
+Proof. exact MinFlowCut.diamond_mincut_premises. Qed.
+Print Assumptions C17_residual_cut_premises_satisfiable.
+
+Example C17_residual_cut_on_the_diamond :
+  MinFlowCut.mincut_model MinFlowCut.dmV MinFlowCut.dmE 0%N MinFlowCut.dmW MinFlowCut.dmF = ([1; 0]%N, [(1, 2); (1, 3)]%N).
+Proof. exact MinFlowCut.diamond_mincut. Qed.
+Print Assumptions C17_residual_cut_on_the_diamond.
